@@ -345,7 +345,7 @@ func svcQuiesce(e *engine.EngineFacade) {
 	if engStat(e, "storage_immutable_memtable_count") == 0 {
 		return
 	}
-	deadline := time.Now().Add(20 * time.Second)
+	deadline := time.Now().Add(patience(20 * time.Second))
 	for engStat(e, "storage_immutable_memtable_count") != 0 && time.Now().Before(deadline) {
 		time.Sleep(200 * time.Microsecond)
 	}
@@ -1022,7 +1022,7 @@ func (x *svcEnv) step(ws []string) (out string) {
 			svcQuiesce(x.a)
 			svcQuiesce(x.b)
 			return line(r.s, r.e, pre)
-		case <-time.After(5 * time.Second):
+		case <-time.After(patience(5 * time.Second)):
 			x.wedged = true
 			return "svc=err:apply-blocked emb=- (a replicated entry was not applied within 5 s: the applier waits for something a client holds)"
 		}
